@@ -248,10 +248,12 @@ class LoadMixin(AbstractLoaderGenerator, BaseLoadHook):
             # Wrap because we need to create a tuple from list comprehension
             force_wrap = True
         else:
+            # Note: the result might be a `TypeInfo` rather than a string
+            # (ex. for `float`), so explicitly convert it to `str` here.
             string = ', '.join([
-                cls.get_string_for_annotation(
+                str(cls.get_string_for_annotation(
                     tp.replace(origin=arg, index=k),
-                    extras)
+                    extras))
                 for k, arg in enumerate(args)])
 
             result = f'({string}, )'
